@@ -715,8 +715,18 @@ fn check_uac(case: &super::c13::Case, out: &mut CaseOut) {
     }
 }
 
+fn seed_corpus_datagram(dir: &std::path::Path) {
+    for (i, c) in sample_strategy(&strategy(), 7, 300).into_iter().enumerate() {
+        let _ = std::fs::write(dir.join(format!("gen-{i:03}")), &c.bytes);
+    }
+    for (i, m) in super::c03::corpus().into_iter().enumerate() {
+        let _ = std::fs::write(dir.join(format!("c03-{i:03}")), m.bytes());
+    }
+}
+
 pub fn property() -> Property {
     Property {
+        fuzz: vec![FuzzStage { target: "sip_datagram", runs: 2_000_000, max_len: 6000, seed_corpus: seed_corpus_datagram }],
         id: "C02",
         rule: "a case = one hostile input: (60%) a valid INVITE / OPTIONS / in-dialog BYE / 200 response / REGISTER with 1..3 mutations from a 24-entry catalogue (Content-Length incl. usize::MAX, duplicate compact l, CSeq / Session-Expires / Min-SE / Expires / Max-Forwards / RSeq / RAck over {0,1,9,10,11,u32::MAX-1,u32::MAX,u32::MAX+1,2^64-1,2^64,-1,...}, hostile Via / From / To / Contact / auth values, missing base headers, 20 Vias, invalid UTF-8, broken start lines, obs-fold, 4096+-2 byte heads, broken head terminators, body length mismatch), optional LF-only line ends, leading CRLFs, truncation; (20%) byte-level mutations of valid messages; (20%) random bytes / ASCII / SIP-token soup. Delivered as one datagram or over a stream connection in random segments. Checked: datagram parser, every typed header decoder on every header value, the stream decoder, then the whole receive path of an endpoint with DialogLayer + InviteLayer + an application that accepts every INVITE (180, reliable 183, 200, session), 40 s of virtual time, and finally a valid OPTIONS over the datagram transport and over a fresh connection must each be answered. Non-trivial = the input reached header decoding (start line parsed) and is not pure noise; distinct by bytes.",
         assumptions: vec![
